@@ -8,6 +8,7 @@ test-suite and (B) the property checks of /verif.
   tools/mutation_run.py stageB [-j 3] [--limit N] [--deadline EPOCH] [--follow]
                                              repo-suite survivors, in the stratified order: the relevant checks (quick)
   tools/mutation_run.py summary              write mutation/SUMMARY.md (results.jsonl + triage.jsonl) and survivors/*.diff
+  tools/mutation_run.py demo <id> <x_test.go> run a demonstration test on the clean and on the mutated tree
   tools/mutation_run.py clean                remove the scratch worktrees and /tmp/mut
 
 Everything is appended to /verif/mutation/results.jsonl, one JSON object per
@@ -394,6 +395,33 @@ def gen(args):
     subprocess.run([os.path.join(SCRATCH, "mutate"), "-repo", REPO, "-out", DIFFS], check=True)
 
 
+def demo(args):
+    """Run a demonstration test against the clean tree and against the mutated tree:
+    a GAP demo must pass on the first and fail on the second."""
+    index = {m["id"]: m for m in load_index()}
+    m = index[args.id]
+    wt = worktree("wT%d" % os.getpid())
+    try:
+        src = open(args.test).read()
+        pkg = re.search(r"^package (\w+)", src, re.M).group(1)
+        d = args.dir if args.dir is not None else {"soy": ".", "soy_test": ".", "pomsg": "soymsg/pomsg"}.get(pkg, pkg.replace("_test", ""))
+        dst = os.path.join(wt, d, "zz_mutation_demo_test.go")
+        name = re.search(r"func (Test\w+)", src).group(1)
+        for label, mutated in (("clean", False), ("mutated", True)):
+            if mutated:
+                ok, err = apply(wt, m)
+                if not ok:
+                    print("patch failed", err)
+                    return
+            open(dst, "w").write(src)
+            rc, out, secs = run(["go", "test", "-count=1", "-vet=off", "-timeout", "60s", "-run", "^" + name + "$", "./" + d], wt, 200)
+            print("%s tree: %s" % (label, "PASS" if rc == 0 else "FAIL (rc=%s)" % rc))
+            if rc != 0 or args.v:
+                print("\n".join("    " + l for l in out.splitlines()[:args.lines]))
+    finally:
+        subprocess.run(["git", "-C", REPO, "worktree", "remove", "--force", wt])
+
+
 def clean(args):
     if os.path.isdir(SCRATCH):
         for d in os.listdir(SCRATCH):
@@ -417,6 +445,12 @@ def main():
     b.add_argument("--deadline", type=float, default=0, help="epoch seconds after which no new mutant is started")
     b.add_argument("--follow", action="store_true", help="keep waiting for stage A to produce survivors")
     sub.add_parser("summary")
+    d = sub.add_parser("demo")
+    d.add_argument("id")
+    d.add_argument("test", help="a _test.go file with one Test function")
+    d.add_argument("--dir", default=None, help="package directory (default: derived from the package clause)")
+    d.add_argument("-v", action="store_true")
+    d.add_argument("--lines", type=int, default=25)
     sub.add_parser("clean")
     args = ap.parse_args()
     if args.cmd == "gen":
@@ -431,6 +465,8 @@ def main():
     elif args.cmd == "summary":
         import mutation_summary
         mutation_summary.main()
+    elif args.cmd == "demo":
+        demo(args)
     elif args.cmd == "clean":
         clean(args)
 
